@@ -240,7 +240,8 @@ class Run:
             for v in vectors:
                 f.write(json.dumps(v, separators=(",", ":")) + "\n")
         if deadline_ms is None:
-            deadline_ms = 10000 if self.tier == "thorough" else 4000
+            # generous: a call that takes this long on a loaded machine is still reported only if it does so again when re-driven alone
+            deadline_ms = 15000 if self.tier == "thorough" else 8000
         env = dict(os.environ)
         env.pop("DEBUG_I2P", None)      # the library's logger must stay silent
         env.pop("WARNFAIL_I2P", None)
